@@ -231,6 +231,8 @@ func c09Grammars() []c09Job {
 		"clean":    hdr + "E <- T ('+' T { p.N++ })* !.\nT <- F ('*' F)*\nF <- <[0-9]+> { _ = text } / '(' E2 ')'\nE2 <- T ('+' T)*\n",
 		"leftrec":  hdr + "S <- X 'x' / Y\nX <- Y? X 'q' / 'r'\nY <- !X 'y' / S 'z'\n",
 		// several undefined and several unused rules: the order of the diagnostics must be fixed
+		// first sets with members far apart in the code space (the -switch pass enumerates code points)
+		"wideswitch": hdr + "S <- [a-c\\0x20000-\\0x20005] 'x' / [0-9\\0xE0001] 'y' / [\\0x10FFF0-\\0x10FFFF\\0x3000-\\0x3002] / 'z' S\n",
 		"manywarn": hdr + "S <- U1 / U2 'x' / U3? 'y' / &U4 'z' / U5*\nN1 <- 'a' U6\nN2 <- N3\nN3 <- 'b' U7\nN4 <- N4 'c'\n",
 	}
 	var names []string
